@@ -320,20 +320,37 @@ func c10Elems(kind string, size int) []model.Ev {
 	case model.KF64:
 		pool = []model.Ev{{K: kind, F: math.Float64bits(1e300)}, {K: kind, F: math.Float64bits(-2.5)}, {K: kind, F: math.Float64bits(1)}}
 	}
-	return pool[:size]
+	if size <= len(pool) {
+		return pool[:size]
+	}
+	out := make([]model.Ev, size)
+	for i := range out {
+		out[i] = pool[i%len(pool)]
+	}
+	return out
 }
 
 func enumC10(emit func(c any) bool) {
 	var events []model.Ev
-	for _, size := range []int{0, 1, 3} {
+	// sizes: empty, one, a few boundary values, and the length boundaries of the
+	// binary formats' count fields (127/128, 255/256)
+	for _, size := range []int{0, 1, 3, 127, 128, 255, 256} {
 		for _, k := range model.ArrElemKinds {
 			events = append(events, model.Ev{K: "a:" + k, E: c10Elems(k, size)})
 		}
-		events = append(events, model.Ev{K: model.KBytes, S: []byte{0, 255, 7}[:size]})
+		bs := make([]byte, size)
+		for i := range bs {
+			bs[i] = []byte{0, 255, 7}[i%3]
+		}
+		events = append(events, model.Ev{K: model.KBytes, S: bs})
 		for _, k := range model.ObjElemKinds {
 			e := model.Ev{K: "o:" + k, E: c10Elems(k, size)}
 			for i := 0; i < size; i++ {
-				e.Keys = append(e.Keys, []byte([]string{"k", "", "é k"}[i]))
+				if i < 3 {
+					e.Keys = append(e.Keys, []byte([]string{"k", "", "é k"}[i]))
+				} else {
+					e.Keys = append(e.Keys, []byte(fmt.Sprintf("k%d", i)))
+				}
 			}
 			events = append(events, e)
 		}
@@ -342,12 +359,19 @@ func enumC10(emit func(c any) bool) {
 	sib := []model.Ev{{K: model.KI8, I: 5}, {K: model.KStr, S: []byte("after")}}
 	for _, consumer := range c10Consumers {
 		for _, ev := range events {
+			big := len(ev.E) > 3 || len(ev.S) > 8
 			for _, pos := range []string{"top", "array", "object"} {
 				if ev.K == model.KKeyRef && pos != "object" {
 					continue
 				}
+				if big && pos == "object" {
+					continue
+				}
 				for _, withSib := range []bool{false, true} {
 					if pos == "top" && withSib {
+						continue
+					}
+					if big && !withSib && pos != "top" {
 						continue
 					}
 					for _, ann := range []bool{false, true} {
